@@ -46,6 +46,9 @@ pub enum OStep {
     News { heads: Vec<(u8, u64)> },
     /// an operation that has nothing to do with the entries of the document under test
     Side(SideOp),
+    /// the document under test is closed, removed and created again from the same secret, in the
+    /// same long-lived store: it starts a new life, empty, and nothing of the old one may matter
+    Recreate,
 }
 
 #[derive(Serialize, Deserialize, Clone, Debug)]
@@ -118,6 +121,7 @@ impl Scenario for Offer {
                     2 => steps.push(OStep::Flush),
                     3 | 4 => steps.push(OStep::Age { at: rng.below(6) as u32 }),
                     5 if self.mode == Mode::Heads => steps.push(OStep::News { heads: gen_heads(rng, &g) }),
+                    9 if rng.chance(1, 2) => steps.push(OStep::Recreate),
                     6 | 7 => {
                         let gn = GenCfg { docs: 4, authors: 4, max_key_len: 2, ts_values: 4, marker_pct: 20, contents: 3 };
                         steps.push(OStep::Side(match rng.below(8) {
@@ -418,6 +422,17 @@ impl Offer {
                         if self.mode == Mode::Heads {
                             self.check_news(sut.store(), h, ri, cx)?;
                         }
+                    }
+                    OStep::Recreate => {
+                        let w = crate::world::world();
+                        sut.store().close_replica(w.doc_id(pd));
+                        sut.store().remove_replica(&w.doc_id(pd)).map_err(|e| harness(format!("remove the document under test: {e:#}")))?;
+                        ensure_doc(sut.store(), pd)?;
+                        model = RefDoc::default();
+                        offered.clear();
+                        cx.fault("document_removed_and_created_again");
+                        cx.ev("recreate", format!("r{ri}"));
+                        self.check(sut.store(), &model, ri, cx, "after re-creation")?;
                     }
                     OStep::Side(op) => {
                         let w = crate::world::world();
